@@ -67,7 +67,7 @@ Section FullSteps.
     Variables a b : car K.
     Notation lc := (lc K a b). Notation lcV := (lcV K a b).
     Definition lcA (f g : A3 K) : A3 K := fun i j k => lc (f i j k) (g i j k).
-    Ltac cx := apply c_eq; unfold Yee_linear.lc, cadd, csub, cscal, cdivr, quarter; cbn [fst snd]; rewrite ?(Fdiv_def (Fth K)); ring.
+    Ltac cx := apply c_eq; unfold Yee_linear.lc, wmix, half, cadd, csub, cscal, cdivr; cbn [fst snd]; rewrite ?(Fdiv_def (Fth K)); ring.
     Lemma shp_lin d f g : aeqA (shp K sc d (lcA f g)) (lcA (shp K sc d f) (shp K sc d g)).
     Proof. intros i j k. destruct d as [|[|d]]; cbn [shp]; unfold lcA; apply (nxt_lc K a b). Qed.
     Lemma shm_lin d f g : aeqA (shm K sc d (lcA f g)) (lcA (shm K sc d f) (shm K sc d g)).
@@ -179,7 +179,7 @@ Section FullReal.
   Proof. intros R i j k. destruct Ghost as (g1 & g2 & g3 & _). destruct a as [|[|a]]; cbn [shp]; apply (nxt_real K); try assumption; intros q; apply R. Qed.
   Lemma shm_real a f : realA f -> realA (shm K sc a f).
   Proof. intros R i j k. destruct Ghost as (_ & _ & _ & g4 & g5 & g6). destruct a as [|[|a]]; cbn [shm]; apply (prv_real K); try assumption; intros q; apply R. Qed.
-  Ltac re := unfold realC, cadd, csub, cscal, cdivr in *; cbn [fst snd] in *.
+  Ltac re := unfold realC, wmix, half, cadd, csub, cscal, cdivr in *; cbn [fst snd] in *.
   Lemma avgE_real f c l : realA f -> realA (avgE K sc f c l).
   Proof.
     intros R i j k. pose proof (R i j k) as r0. pose proof (shp_real l f R i j k) as r1. pose proof (shm_real c f R i j k) as r2.
